@@ -120,7 +120,8 @@ Theorem new_aio_is_concatenation : forall c (cT : string -> cmd) hw o disk st ty
   confirm_types (list_types_of CNew) c o (mk_view hw disk []) = Some (types, fmap) ->
   generate (new_make c) nrender (list_types_of CNew) c o hw disk st = Some sm ->
   (forall T o' disk' st', In T types ->
-     generate (new_make (cT T)) nrender (list_types_of CNew) (cT T) o' hw disk' st' <> None) /\
+     generate (new_make (cT T)) nrender (list_types_of CNew) (cT T) o' hw disk' st' = None ->
+     exists s, alone (new_make c) hw nstate0 T = MSkip s) /\
   forall o' disk' st',
     let singles := flat_map (fun T => single_file (generate (new_make (cT T)) nrender (list_types_of CNew) (cT T) o' hw disk' st')) types in
     match sm with
@@ -134,8 +135,8 @@ Proof.
   intros c cT hw o disk st types fmap sm Hne HcT.
   assert (H1 : forall T, c_types (cT T) = [T]) by (intros T; apply HcT).
   assert (H2 : forall T, c_file (cT T) = "") by (intros T; apply HcT).
-  assert (H3 : forall T st' v, same_body nrender nrender (new_make c st' v T) (new_make (cT T) st' v T)).
-  { intros T st' v. destruct (HcT T) as [_ [_ [Hg [Hj Ho]]]]. apply new_cmd_sim; auto. }
+  assert (H3 : forall T st' v, sim_body nrender nrender (new_make c st' v T) (new_make (cT T) st' v T)).
+  { intros T st' v. destruct (HcT T) as [_ [_ [Hg [Hj Ho]]]]. apply same_sim_body. apply new_cmd_sim; auto. }
   exact (aio_is_concatenation new_make nrender new_same_out hw (fun c0 => new_blind_at c0 _ Hne) (list_types_of CNew) c cT H1 H2 H3 nstate0
            o disk st types fmap sm).
 Qed.
@@ -215,7 +216,6 @@ Theorem new_permutation : forall c c' hw o disk st st',
   Permutation (c_types c) (c_types c') -> c_file c = c_file c' -> c_sub c = c_sub c' ->
   c_star c = false -> c_star c' = false ->
   c_getset c = c_getset c' -> c_json c = c_json c' -> c_opt c = c_opt c' ->
-  NoDup (map (out_name hw c (spec_fmap c o (mk_view hw disk []))) (c_types c)) ->
   match generate (new_make c) nrender (list_types_of CNew) c o hw disk st,
         generate (new_make c') nrender (list_types_of CNew) c' o hw disk st' with
   | Some sm, Some sm' => map nb (listing sm) = map nb (listing sm')
@@ -223,7 +223,7 @@ Theorem new_permutation : forall c c' hw o disk st st',
   | _, _ => False
   end.
 Proof.
-  intros c c' hw o disk st st' Hne Hs Hs' Hp Hf Hsub H1 H2 Hg Hj Ho Hn.
+  intros c c' hw o disk st st' Hne Hs Hs' Hp Hf Hsub H1 H2 Hg Hj Ho.
   apply (permutation_changes_no_content new_make nrender new_same_out hw (fun c0 => new_blind_at c0 _ Hne) (list_types_of CNew)
            c c' o disk st st' Hs Hs' Hp Hf Hsub H1 H2); auto.
   intros T st0 v. apply new_cmd_sim; auto.
